@@ -31,7 +31,9 @@ def main():
     jobs = mod.jobs(tier, a.seed)
     if a.only:
         jobs = [j for j in jobs if a.only in j.name]
-    results = harness.run_jobs(jobs, nproc=a.nproc)
+    # a job that outlives its budget is reported as inconclusive (exit 3), never as success
+    jt = mod.META.get("job_timeout", {}).get(tier) or (900 if tier == "quick" else 6 * 3600)
+    results = harness.run_jobs(jobs, nproc=a.nproc, job_timeout=jt)
     extra = mod.extra_coverage(results) if hasattr(mod, "extra_coverage") else None
     code = harness.finish(mod.PID, tier, a.seed, mod.META, results, t0, extra)
     sys.exit(code)
